@@ -179,7 +179,9 @@ def gen_vops(rng, spec, nops, reader_only=False, writer_bias=False):
                 op = ('t', i, pick_n(rng, av), kind, rng.choice([0, 1, 2, 5, max(av - 1, 0), av, 5000]) if kind == 'l' else 0)
             elif k == 'X':
                 kind = rng.choice('fflle' + ('b' if rng.random() < 0.3 else 'l'))
-                op = ('X', i, pick_n(rng, av), kind, rng.choice([0, 1, 1, 2, 5, 7, max(av - 1, 1), 5000]) if kind == 'l' else 0)
+                cnt = pick_n(rng, av)
+                lims = [0, 1, 1, 2, 5, 7, max(av - 1, 1), 5000] if min(cnt, av) <= 300 else [0, av // 3 + 1, av // 2 + 1, max(av - 1, 1), 5000]   # many tiny pieces of a big buffer only cost time
+                op = ('X', i, cnt, kind, rng.choice(lims) if kind == 'l' else 0)
             else: op = ('s', i, pick_n(rng, av))
         else:
             i = rng.randrange(len(spec.wr)); av = len(spec.wr[i][0])
